@@ -7,7 +7,8 @@
    Implementation state (what the bucket and the process hold):
      user[u]  = [exists, disabled, hpw, epoch]   user document.  hpw = the password the stored bcrypt hash
                 verifies under the FULL check ("" = no hash: PasswordHash_ == nil); epoch = SessionUUID_.
-     sess[s]  = [exists, user, epoch, oneTime]    session document (expiry = the store deleting it)
+     sess[s]  = [exists, user, epoch, oneTime, aged]   session document (expiry = the store deleting it); aged = more
+                than 10% of its TTL has elapsed since it was issued / last refreshed (environment action Age)
      cache    = set of <<pw, u>>: authKey(current hash of u, pw) is in cachedHashes.  Only pairs whose
                 hash is still stored in a user document are represented: compareHashAndPassword is only
                 ever called with a stored hash, other entries are unreachable (a fresh SetPassword has a
@@ -17,7 +18,8 @@
                 session document.
      res      = outcome of the last completed call.
    One action per storage-atomic section.  Administrative operations and the sequential Auth* calls are
-   atomic (the harness runs them one at a time); a concurrent presentation is three actions.
+   atomic (the harness runs them one at a time); a concurrent presentation is one action per storage operation:
+   Get session, [Set session: TTL refresh, cookie path, aged regular sessions only], Get user, [Delete: one-time].
    Impl<A> constrain the implementation variables, Ghost<A> the ground truth / history; Trace_AuthSession
    reuses them (pass P: implementation variables := logged REAL state, ghosts from logged inputs). *)
 EXTENDS Integers, Sequences, FiniteSets, TLC
@@ -30,10 +32,12 @@ CONSTANTS Users,               \* user names (strings)
           EpochIds,            \* 1..n, names for SessionUUID values (compared by equality only)
           MaxSteps,
           Ops,                 \* names of the actions enabled in this configuration
-          SessChecksDisabled   \* FALSE = as coded (the session path never consults Disabled()); TRUE = the ideal
+          SessChecksDisabled,  \* TRUE = as coded since fix 64083be (the session paths refuse a disabled owner); FALSE = before it
+          RefreshUpserts,      \* TRUE = as coded: the TTL refresh of AuthenticateCookie is a blind Set (re-creates a deleted document)
+          InFlightOps          \* administrative actions allowed while a presentation is in flight ({} in the families)
 
 NoUser == [exists |-> FALSE, disabled |-> FALSE, hpw |-> "", epoch |-> 0]
-NoSess == [exists |-> FALSE, user |-> "", epoch |-> 0, oneTime |-> FALSE]
+NoSess == [exists |-> FALSE, user |-> "", epoch |-> 0, oneTime |-> FALSE, aged |-> FALSE]
 NoLoc  == [s |-> "", kind |-> "", su |-> "", se |-> 0, so |-> FALSE]
 NoRes  == [op |-> "none", u |-> "", p |-> "", s |-> "", pr |-> 0, ok |-> FALSE, who |-> ""]
 NoGt   == [live |-> FALSE, uexists |-> FALSE, enabled |-> FALSE, fresh |-> FALSE, cred |-> FALSE, owner |-> ""]
@@ -115,7 +119,7 @@ GhostDeleteUser(u) ==
 \* GetUser; CreateSession (refused with 400 for a disabled user)
 ImplCreateSession(s, u, one) ==
   /\ sess' = IF user[u].disabled THEN sess
-             ELSE [sess EXCEPT ![s] = [exists |-> TRUE, user |-> u, epoch |-> user[u].epoch, oneTime |-> one]]
+             ELSE [sess EXCEPT ![s] = [exists |-> TRUE, user |-> u, epoch |-> user[u].epoch, oneTime |-> one, aged |-> FALSE]]
   /\ res' = Result("CreateSession", u, "", s, 0, ~user[u].disabled, u)
   /\ UNCHANGED <<user, cache, pc, loc>>
 GhostCreateSession(s, u, one) ==        \* the id is chosen by the system: the slot is issued iff the call reported success
@@ -133,6 +137,13 @@ ImplDropSession(op, s) ==
 GhostDropSession(s) ==
   /\ gSess' = [gSess EXCEPT ![s].live = FALSE]
   /\ gt' = NoGt /\ UNCHANGED <<gUser, okCount, pgt>>
+
+\* environment: time passes - more than 10% of the session's TTL has elapsed (nothing else changes)
+ImplAge(s) ==
+  /\ sess' = [sess EXCEPT ![s].aged = TRUE]
+  /\ res' = Result("Age", "", "", s, 0, TRUE, "")
+  /\ UNCHANGED <<user, cache, pc, loc>>
+GhostAge(s) == gt' = NoGt /\ UNCHANGED <<gUser, gSess, okCount, pgt>>
 
 (* ---- password authentication: AuthenticateUser -> AuthenticateWithReason -> compareHashAndPassword ---- *)
 PwOk(u, p) ==
@@ -162,12 +173,16 @@ GhostPresented(s, g) ==
   /\ gSess' = IF res'.ok /\ gSess[s].oneTime THEN [gSess EXCEPT ![s].live = FALSE] ELSE gSess
 
 UserOk(u, e) == /\ user[u].exists /\ user[u].epoch = e          \* GetSession / AuthenticateCookie: user != nil && uuid equal
-                /\ (SessChecksDisabled => ~user[u].disabled)    \* not in the code (DESIGN section 7, F4)
+                /\ (SessChecksDisabled => ~user[u].disabled)    \* since fix 64083be (DESIGN section 7, F4)
 \* the uninterrupted call: Get session; Get user + compare; delete iff one-time (the delete is the success decision)
 SessOk(s) == sess[s].exists /\ UserOk(sess[s].user, sess[s].epoch)
+\* AuthenticateCookie only: an aged regular session is written back with a new expiration right after it was read -
+\* BEFORE its user is validated; one-time sessions are never refreshed (they are deleted by this request)
+NeedsRefresh(S) == S.aged /\ ~S.oneTime
 ImplAuthSess(op, s) ==
+  LET refreshed == [sess EXCEPT ![s].aged = IF op = "AuthCookie" /\ sess[s].exists /\ NeedsRefresh(sess[s]) THEN FALSE ELSE @] IN
   /\ res' = Result(op, "", "", s, 0, SessOk(s), sess[s].user)
-  /\ sess' = IF SessOk(s) /\ sess[s].oneTime THEN [sess EXCEPT ![s] = NoSess] ELSE sess
+  /\ sess' = IF SessOk(s) /\ sess[s].oneTime THEN [refreshed EXCEPT ![s] = NoSess] ELSE refreshed
   /\ UNCHANGED <<user, cache, pc, loc>>
 GhostAuthSess(s) == GhostPresented(s, GT(s)) /\ UNCHANGED <<gUser, pgt>>
 
@@ -175,13 +190,21 @@ GhostAuthSess(s) == GhostPresented(s, GT(s)) /\ UNCHANGED <<gUser, pgt>>
 Fin(L) == [NoLoc EXCEPT !.s = L.s, !.kind = L.kind]
 ImplPGetS(q, s, kind) ==                \* datastore.Get(session)
   /\ IF sess[s].exists
-     THEN /\ pc' = [pc EXCEPT ![q] = "gotS"]
+     THEN /\ pc' = [pc EXCEPT ![q] = IF kind = "AuthCookie" /\ NeedsRefresh(sess[s]) THEN "gotSr" ELSE "gotS"]
           /\ loc' = [loc EXCEPT ![q] = [s |-> s, kind |-> kind, su |-> sess[s].user, se |-> sess[s].epoch, so |-> sess[s].oneTime]]
           /\ res' = NoRes
      ELSE /\ pc' = [pc EXCEPT ![q] = "done"]
           /\ loc' = [loc EXCEPT ![q] = [NoLoc EXCEPT !.s = s, !.kind = kind]]
           /\ res' = Result(kind, "", "", s, q, FALSE, "")
   /\ UNCHANGED <<user, sess, cache>>
+ImplPSet(q) ==                          \* the refresh: datastore.Set(session) with a new expiration - no CAS, no existence check
+  LET L == loc[q] IN
+  /\ pc' = [pc EXCEPT ![q] = "gotS"]
+  /\ sess' = IF RefreshUpserts \/ sess[L.s].exists
+             THEN [sess EXCEPT ![L.s] = [exists |-> TRUE, user |-> L.su, epoch |-> L.se, oneTime |-> L.so, aged |-> FALSE]]
+             ELSE sess
+  /\ res' = NoRes
+  /\ UNCHANGED <<user, cache, loc>>
 ImplPGetU(q) ==                         \* GetUser = datastore.Update(user doc, cancel) ; uuid comparison
   LET L == loc[q] IN
   /\ IF ~UserOk(L.su, L.se) THEN pc' = [pc EXCEPT ![q] = "done"] /\ loc' = [loc EXCEPT ![q] = Fin(L)] /\ res' = Result(L.kind, "", "", L.s, q, FALSE, "")
@@ -211,7 +234,8 @@ Enable(u)         == Quiet /\ user[u].exists /\ user[u].disabled /\ ImplSetDisab
 DeleteUser(u)     == Quiet /\ user[u].exists /\ ImplDeleteUser(u) /\ GhostDeleteUser(u) /\ Step("DeleteUser", u, "", "", FALSE, 0, "")
 CreateSession(s, u, one) == Quiet /\ user[u].exists /\ ~gSess[s].created /\ ImplCreateSession(s, u, one) /\ GhostCreateSession(s, u, one)
                             /\ Step("CreateSession", u, "", s, one, 0, "")
-DeleteSession(s)  == Quiet /\ gSess[s].created /\ ImplDropSession("DeleteSession", s) /\ GhostDropSession(s) /\ Step("DeleteSession", "", "", s, FALSE, 0, "")
+Age(s)            == Quiet /\ sess[s].exists /\ ~sess[s].aged /\ ImplAge(s) /\ GhostAge(s) /\ Step("Age", "", "", s, FALSE, 0, "")
+DeleteSession(s)  == (Quiet \/ "DeleteSession" \in InFlightOps) /\ gSess[s].created /\ ImplDropSession("DeleteSession", s) /\ GhostDropSession(s) /\ Step("DeleteSession", "", "", s, FALSE, 0, "")
 Expire(s)         == Quiet /\ sess[s].exists /\ ImplDropSession("Expire", s) /\ GhostDropSession(s) /\ Step("Expire", "", "", s, FALSE, 0, "")
 AuthPassword(u, p) == Quiet /\ ImplAuthPassword(u, p) /\ GhostAuthPassword(u, p) /\ Step("AuthPassword", u, p, "", FALSE, 0, "")
 AuthSess(op, s)   == Quiet /\ ImplAuthSess(op, s) /\ GhostAuthSess(s) /\ Step(op, "", "", s, FALSE, 0, "")
@@ -219,8 +243,9 @@ AuthSess(op, s)   == Quiet /\ ImplAuthSess(op, s) /\ GhostAuthSess(s) /\ Step(op
 \* presenters begin in index order (they are interchangeable) and one episode is about one slot
 PGetS(q, s, kind) == /\ pc[q] = "idle" /\ gSess[s].created
                      /\ \A r \in Presenters : r < q => pc[r] # "idle"
-                     /\ \A r \in Presenters : pc[r] \in {"gotS", "gotU"} => loc[r].s = s
+                     /\ \A r \in Presenters : pc[r] \in {"gotSr", "gotS", "gotU"} => loc[r].s = s
                      /\ ImplPGetS(q, s, kind) /\ GhostPStep(q, s, GT(s)) /\ Step("PGetS", "", "", s, FALSE, q, kind)
+PSet(q)  == pc[q] = "gotSr" /\ ImplPSet(q) /\ GhostPStep(q, loc[q].s, pgt[q]) /\ Step("PSet", "", "", loc[q].s, FALSE, q, loc[q].kind)
 PGetU(q) == pc[q] = "gotS" /\ ImplPGetU(q) /\ GhostPStep(q, loc[q].s, pgt[q]) /\ Step("PGetU", "", "", loc[q].s, FALSE, q, loc[q].kind)
 PDel(q)  == pc[q] = "gotU" /\ ImplPDel(q)  /\ GhostPStep(q, loc[q].s, pgt[q]) /\ Step("PDel", "", "", loc[q].s, FALSE, q, loc[q].kind)
 
@@ -237,9 +262,10 @@ Next ==
      \/ \E s \in Sessions :
           \/ (On("DeleteSession") /\ DeleteSession(s))
           \/ (On("Expire") /\ Expire(s))
+          \/ (On("Age") /\ Age(s))
           \/ \E op \in SessOps : On(op) /\ AuthSess(op, s)
           \/ \E q \in Presenters, kind \in SessOps : On("PGetS") /\ PGetS(q, s, kind)
-     \/ \E q \in Presenters : PGetU(q) \/ PDel(q)
+     \/ \E q \in Presenters : PSet(q) \/ PGetU(q) \/ PDel(q)
 Spec == Init /\ [][Next]_vars
 
 -----------------------------------------------------------------------------
@@ -263,7 +289,7 @@ OneTimeOnce ==        \* a one-time session authenticates at most once, however 
 TypeOK ==
   /\ \A u \in Users : user[u].exists \/ user[u] = NoUser
   /\ \A s \in Sessions : sess[s].exists \/ sess[s] = NoSess
-  /\ \A q \in Presenters : pc[q] \in {"idle", "gotS", "gotU", "done"}
+  /\ \A q \in Presenters : pc[q] \in {"idle", "gotSr", "gotS", "gotU", "done"}
 ModelTracksTruth ==   \* the model's implementation state agrees with the ground truth it is judged against
   /\ \A u \in Users : user[u].exists = gUser[u].exists /\ user[u].disabled = gUser[u].disabled /\ user[u].hpw = gUser[u].pw
   /\ \A s \in Sessions : sess[s].exists = (gSess[s].created /\ gSess[s].live)
